@@ -155,6 +155,13 @@ func emitSummaries(c *Ctx, handlers map[*ssa.Function]bool) map[*ssa.Function]bo
 			fns = append(fns, f)
 		}
 	}
+	// methods of the package's types as well (a helper may be written as a method of *Pass1)
+	for _, f := range c.L.RepoFuncs() {
+		if f.Pkg == sp && f.Blocks != nil && f.Signature.Recv() != nil && f.Parent() == nil {
+			fns = append(fns, f)
+		}
+	}
+	sortFuncs(fns)
 	for changed := true; changed; {
 		changed = false
 		for _, f := range fns {
